@@ -18,6 +18,7 @@ import SqiGen.KeccakParams
 import SqiProofs.SpongeMain
 import SqiProofs.SpongeGen4
 import SqiProofs.SpongeGenSq3
+import SqiProofs.SpongeWrapGen
 import SqiProofs.Challenge
 import SqiProofs.C20Kat
 import SqiProofs.DrbgRefine
@@ -156,6 +157,60 @@ theorem gen_inc_squeeze_eq_model (F : Fips202.State → Fips202.State) (fuel r :
       SqiProofs.SpongeGen.Written h v'.h hoff outlen (incSqueeze F r st outlen).1 ∧
       (⟨v'.s_inc, v'.pos⟩ : IncState) = (incSqueeze F r st outlen).2 :=
   SqiProofs.SpongeGen.inc_squeeze_eq F fuel r h0 st hp h hoff outlen i0 hl hf
+
+/-! ### the remaining wrappers, re-extracted by tools/translate/spongewrap.py (SqiGen/SpongeWrap.lean) -/
+
+/-- the re-extracted `keccak_inc_init` (25-iteration zeroing loop + `s_inc[25] = 0`) = the hand model `incInit`, whatever the
+    memory contained before -/
+theorem gen_inc_init_eq_model (F : Fips202.State → Fips202.State) (fuel : Nat) (s0 : Fips202.State) (p0 i0 : Nat)
+    (hf : 25 ≤ fuel) :
+    SqiGen.Sponge.keccak_inc_init.run F fuel ⟨s0, p0, i0⟩ = some ⟨incInit.s, incInit.pos, 25⟩ :=
+  SqiProofs.SpongeGen.inc_init_eq F fuel s0 p0 i0 hf
+
+/-- `shake256_inc_init` / `shake128_inc_init` (fresh allocation with arbitrary contents, then the call) -/
+theorem gen_shake_inc_init_eq_model (F : Fips202.State → Fips202.State) (fuel : Nat) (ctx : Fips202.State) (pos i0 : Nat)
+    (hf : 25 ≤ fuel) :
+    SqiGen.Sponge.shake256_inc_init.run F fuel ctx pos i0 = some ⟨incInit.s, incInit.pos, 25⟩ ∧
+    SqiGen.Sponge.shake128_inc_init.run F fuel ctx pos i0 = some ⟨incInit.s, incInit.pos, 25⟩ :=
+  ⟨SqiProofs.SpongeGen.inc_init_eq F fuel ctx pos i0 hf, SqiProofs.SpongeGen.inc_init_eq F fuel ctx pos i0 hf⟩
+
+/-- `shake256_inc_absorb(state, input, inlen)` as re-extracted (callee, argument order, rate macro resolved from the C text)
+    = the model `incAbsorb` at rate 136 -/
+theorem gen_shake256_inc_absorb_eq_model (F : Fips202.State → Fips202.State) (fuel : Nat) (st : IncState) (m : List UInt8)
+    (i0 : Nat) (hp : st.pos < 136) (hf : m.length + 136 < fuel) :
+    ∃ v', SqiGen.Sponge.shake256_inc_absorb.run F fuel st.s st.pos m m.length i0 = some v' ∧
+      v'.s_inc = (incAbsorb F 136 st m).s ∧ v'.pos = (incAbsorb F 136 st m).pos :=
+  SqiProofs.SpongeGen.inc_absorb_eq F fuel 136 st m i0 hp hf
+
+theorem gen_shake128_inc_absorb_eq_model (F : Fips202.State → Fips202.State) (fuel : Nat) (st : IncState) (m : List UInt8)
+    (i0 : Nat) (hp : st.pos < 168) (hf : m.length + 168 < fuel) :
+    ∃ v', SqiGen.Sponge.shake128_inc_absorb.run F fuel st.s st.pos m m.length i0 = some v' ∧
+      v'.s_inc = (incAbsorb F 168 st m).s ∧ v'.pos = (incAbsorb F 168 st m).pos :=
+  SqiProofs.SpongeGen.inc_absorb_eq F fuel 168 st m i0 hp hf
+
+/-- `shake256_inc_finalize` / `shake128_inc_finalize` as re-extracted = `incFinalize` with rate 136 / 168 and domain byte 0x1F -/
+theorem gen_shake_inc_finalize_eq_model (F : Fips202.State → Fips202.State) (fuel : Nat) (st : IncState) :
+    SqiGen.Sponge.shake256_inc_finalize.run F fuel st.s st.pos
+      = some ⟨(incFinalize 136 0x1F st).s, (incFinalize 136 0x1F st).pos, 136, 0x1F⟩ ∧
+    SqiGen.Sponge.shake128_inc_finalize.run F fuel st.s st.pos
+      = some ⟨(incFinalize 168 0x1F st).s, (incFinalize 168 0x1F st).pos, 168, 0x1F⟩ :=
+  ⟨SqiProofs.SpongeGen.inc_finalize_eq F fuel st 136 0x1F, SqiProofs.SpongeGen.inc_finalize_eq F fuel st 168 0x1F⟩
+
+/-- `shake256_inc_squeeze(output, outlen, state)` as re-extracted = the model `incSqueeze` at rate 136 -/
+theorem gen_shake256_inc_squeeze_eq_model (F : Fips202.State → Fips202.State) (fuel : Nat) (st : IncState)
+    (hp : st.pos ≤ 136) (h : List UInt8) (hoff outlen i0 : Nat) (hl : hoff + outlen ≤ h.length) (hf : outlen + 136 < fuel) :
+    ∃ v', SqiGen.Sponge.shake256_inc_squeeze.run F fuel h hoff outlen st.s st.pos i0 = some v' ∧
+      SqiProofs.SpongeGen.Written h v'.h hoff outlen (incSqueeze F 136 st outlen).1 ∧
+      (⟨v'.s_inc, v'.pos⟩ : IncState) = (incSqueeze F 136 st outlen).2 :=
+  SqiProofs.SpongeGen.inc_squeeze_eq F fuel 136 (by decide) st hp h hoff outlen i0 hl hf
+
+theorem gen_shake128_inc_squeeze_eq_model (F : Fips202.State → Fips202.State) (fuel : Nat) (st : IncState)
+    (hp : st.pos ≤ 168) (h : List UInt8) (hoff outlen i0 : Nat) (hl : hoff + outlen ≤ h.length) (hf : outlen + 168 < fuel) :
+    ∃ v', SqiGen.Sponge.shake128_inc_squeeze.run F fuel h hoff outlen st.s st.pos i0 = some v' ∧
+      SqiProofs.SpongeGen.Written h v'.h hoff outlen (incSqueeze F 168 st outlen).1 ∧
+      (⟨v'.s_inc, v'.pos⟩ : IncState) = (incSqueeze F 168 st outlen).2 :=
+  SqiProofs.SpongeGen.inc_squeeze_eq F fuel 168 (by decide) st hp h hoff outlen i0 hl hf
+
 
 theorem genF_eq : SqiGen.Keccak.keccakF = Fips202.keccakF := funext keccakF_gen_eq_spec
 
